@@ -40,6 +40,7 @@ def _mq(*fs):
 
 PROPS = {
     'C01': dict(
+        monitor_clauses=r'_rt_c01',
         monitor_quick=[MT + 'integral_matching_reference_stretch', MT + '_integral_matching_stretch', MT + '_interval_integral_matching_stretch'],
         functions=MATCH + [SAU + 'rectangle_integral', SAU + 'trapezoid_integral', SAU + 'integral', SAU + 'sum_over_indices'],
         select=[('match.', r'^(?!' + C03_CLAUSES + r')')],
@@ -57,7 +58,8 @@ PROPS = {
                      "the corollary 'first to last fixed point = reference total' follows by SUM_SPLIT; it is not stated as a separate clause"],
     ),
     'C03': dict(
-        monitor_quick=[MT + 'integral_matching_reference_stretch', MT + '_integral_matching_stretch'],
+        monitor_quick=[MT + 'integral_matching_reference_stretch', MT + '_integral_matching_stretch', MT + '_interval_integral_matching_stretch'],
+        monitor_clauses=r'_rt_c03',
         functions=MATCH,
         select=[('match.', r'^(?!ensures::(kernel_integral|windows_integrals|top_integrals))')],
         level='proof',
